@@ -42,6 +42,14 @@ var errbiCases = []struct{ src, want string }{
 	{`(do (def ge (go-error "same")) (try (throw ge) (catch e (= (error-string e) (error-string ge)))))`, `true`},
 	{`(try (throw (go-error "x")) (catch e (string? e)))`, `false`},
 	{`(let [r (try (panic :a) (catch e e))] [r (try (throw r) (catch e2 e2))])`, `[:a :a]`},
+	// RAW builtins (not bound through lib/call) that panic — in a body, in a HANDLER, under a finally: the panic value is
+	// the thrown value, the finally body still runs exactly once, the outer handler sees the value
+	{`(try (raw-panic! {:k 1}) (catch e e))`, `{:k 1}`},
+	{`(do (def log (atom [])) (try (try (throw {:a 1}) (catch e (raw-panic! e)) (finally (swap! log conj :released))) (catch e2 (swap! log conj [:outer e2]))) (deref log))`, `[:released [:outer {:a 1}]]`},
+	{`(do (def log (atom [])) (try (try (raw-panic! :p) (finally (swap! log conj :released))) (catch e2 (swap! log conj [:outer e2]))) (deref log))`, `[:released [:outer :p]]`},
+	{`(do (def log (atom [])) (try (try (throw 1) (catch e (raw-nth 7)) (finally (swap! log conj :released))) (catch e2 (swap! log conj :outer))) (deref log))`, `[:released :outer]`},
+	{`(do (def log (atom [])) (try (map (fn [i] (try (raw-nth i) (finally (swap! log conj i)))) [1 7]) (catch e :caught)) (deref log))`, `[1 7]`},
+	{`(let [orig (go-error (apply str (map (fn [i] "0123456789") (range 0 700))))] (try (panic orig) (catch e [(= orig (unwrap-error e)) (count (seq (error-string orig)))])))`, `[true 7000]`},
 	{`host:(panic {:a 1})`, `{:a 1}`},
 	{`host:(throw [1 "two" :three])`, `[1 "two" :three]`},
 	{`host:(do (def f (fn [x] (panic x))) (map f [(list 1 2)]))`, `(1 2)`},
